@@ -199,3 +199,290 @@ Proof.
 Qed.
 
 End Weights.
+
+(* ================================================================== D. pairs, relabelling *)
+(* all pairs (l_i, l_j), i < j, in lexicographic order of positions *)
+Fixpoint pairs (l : list nat) : list edge :=
+  match l with [] => [] | a :: t => map (pair a) t ++ pairs t end.
+
+Lemma all_edges_pairs_gen : forall m s,
+  flat_map (fun a => map (fun b => (a, b)) (seq (S a) (s + m - S a))) (seq s m) = pairs (seq s m).
+Proof.
+  induction m as [|m IH]; intros s; [reflexivity|].
+  cbn [seq flat_map pairs]. f_equal.
+  - replace (s + S m - S s)%nat with m by lia. reflexivity.
+  - rewrite <- (IH (S s)). apply flat_map_ext. intros a.
+    replace (s + S m - S a)%nat with (S s + m - S a)%nat by lia. reflexivity.
+Qed.
+
+Lemma all_edges_pairs n : all_edges n = pairs (seq 0 n).
+Proof. unfold all_edges. rewrite <- all_edges_pairs_gen. reflexivity. Qed.
+
+Lemma pairs_filter (p : nat -> bool) l :
+  filter (fun e => p (fst e) && p (snd e)) (pairs l) = pairs (filter p l).
+Proof.
+  induction l as [|a t IH]; [reflexivity|].
+  cbn [pairs filter]. rewrite filter_app, IH.
+  assert (E : filter (fun e => p (fst e) && p (snd e)) (map (pair a) t) =
+              if p a then map (pair a) (filter p t) else []).
+  { clear IH. induction t as [|b t IHt]; cbn [map filter fst snd]; [destruct (p a); reflexivity|].
+    rewrite IHt. destruct (p a), (p b); reflexivity. }
+  rewrite E. destruct (p a); reflexivity.
+Qed.
+
+Definition emap (f : nat -> nat) (e : edge) : edge := (f (fst e), f (snd e)).
+
+Lemma pairs_map f l : pairs (map f l) = map (emap f) (pairs l).
+Proof.
+  induction l as [|a t IH]; [reflexivity|].
+  cbn [map pairs]. rewrite map_app, IH, !map_map. reflexivity.
+Qed.
+
+Lemma pairs_length l : (2 * length (pairs l) + length l = length l * length l)%nat.
+Proof.
+  induction l as [|a t IH]; [reflexivity|]. cbn [pairs length]. rewrite app_length, map_length.
+  unfold edge in *. nia.
+Qed.
+
+(* a sublist of a duplicate-free list is recovered by filtering on membership *)
+Lemma nmem_cons v x s : nmem v (x :: s) = Nat.eqb v x || nmem v s.
+Proof. reflexivity. Qed.
+
+Lemma subl_filter_mem : forall l C, NoDup l -> subl C l -> filter (fun v => nmem v C) l = C.
+Proof.
+  intros l C Hnd H. induction H as [|x s l Hs IH|x s l Hs IH].
+  - reflexivity.
+  - inversion Hnd; subst. cbn [filter]. rewrite nmem_cons, Nat.eqb_refl. cbn [orb]. f_equal.
+    transitivity (filter (fun v => nmem v s) l); [|apply IH; assumption]. apply filter_ext_in. intros v Hv. rewrite nmem_cons.
+    destruct (Nat.eqb_spec v x); [subst; contradiction | reflexivity].
+  - inversion Hnd; subst. cbn [filter].
+    destruct (nmem x s) eqn:E; [|apply IH; assumption].
+    apply nmem_In in E. apply (subl_incl _ _ Hs) in E. contradiction.
+Qed.
+
+Lemma map_nth_seq (l : list nat) d : map (fun i => nth i l d) (seq 0 (length l)) = l.
+Proof.
+  induction l as [|a t IH]; [reflexivity|].
+  cbn [length seq map nth]. f_equal. rewrite <- seq_shift, map_map. exact IH.
+Qed.
+
+(* ---- connectivity is invariant under an injective relabelling *)
+Section Relabel.
+Variable f : nat -> nat.
+Variable K : nat.
+Hypothesis f_inj : forall i j, (i < K)%nat -> (j < K)%nat -> f i = f j -> i = j.
+
+Lemma conn_emap es x y : conn es x y -> conn (map (emap f) es) (f x) (f y).
+Proof.
+  induction 1 as [x|x y z Ha _ IH]; [constructor|].
+  eapply conn_step; [|exact IH].
+  destruct Ha as [Ha|Ha]; [left|right]; apply in_map_iff; eexists; (split; [|exact Ha]); reflexivity.
+Qed.
+
+Lemma conn_emap_inv es : edges_in (seq 0 K) es ->
+  forall a b, conn (map (emap f) es) a b ->
+  forall x, (x < K)%nat -> a = f x -> exists y, (y < K)%nat /\ b = f y /\ conn es x y.
+Proof.
+  intros Hin a b H. induction H as [a|a a' b Ha _ IH]; intros x Hx E.
+  - exists x. repeat split; [exact Hx | exact E | constructor].
+  - assert (Hq : exists x', (x' < K)%nat /\ a' = f x' /\ adj es x x').
+    { destruct Ha as [Ha|Ha]; apply in_map_iff in Ha; destruct Ha as [[p r] [Ee He]];
+        unfold emap in Ee; cbn [fst snd] in Ee; inversion Ee; subst;
+        destruct (Hin _ He) as [Hp Hr]; cbn [fst snd] in Hp, Hr; apply in_seq in Hp; apply in_seq in Hr.
+      - assert (p = x) by (apply f_inj; [lia | lia | assumption]). subst p.
+        exists r. repeat split; [lia | left; exact He].
+      - assert (r = x) by (apply f_inj; [lia | lia | assumption]). subst r.
+        exists p. repeat split; [lia | right; exact He]. }
+    destruct Hq as [x' [Hx' [E' Hadj]]].
+    destruct (IH x' Hx' E') as [y [Hy [Eb Hc]]].
+    exists y. repeat split; [exact Hy | exact Eb | eapply conn_step; eauto].
+Qed.
+
+Lemma Connected_emap es : edges_in (seq 0 K) es ->
+  (Connected (map f (seq 0 K)) (map (emap f) es) <-> Connected (seq 0 K) es).
+Proof.
+  intros Hin. unfold Connected. split.
+  - intros [Hne H]. split; [destruct K; [contradiction Hne; reflexivity | discriminate]|].
+    intros x y Hx Hy. apply in_seq in Hx. apply in_seq in Hy.
+    assert (Hc : conn (map (emap f) es) (f x) (f y)).
+    { apply H; apply in_map; apply in_seq; lia. }
+    destruct (conn_emap_inv es Hin _ _ Hc x ltac:(lia) eq_refl) as [y' [Hy' [E Hc']]].
+    assert (y = y') by (apply f_inj; [lia | lia | exact E]). subst y'. exact Hc'.
+  - intros [Hne H]. split; [destruct K; [contradiction Hne; reflexivity | discriminate]|].
+    intros a b Ha Hb. apply in_map_iff in Ha. apply in_map_iff in Hb.
+    destruct Ha as [x [<- Hx]]. destruct Hb as [y [<- Hy]]. apply conn_emap. apply H; assumption.
+Qed.
+
+Lemma edges_in_emap es : edges_in (seq 0 K) es -> edges_in (map f (seq 0 K)) (map (emap f) es).
+Proof.
+  intros Hin e He. apply in_map_iff in He. destruct He as [[p r] [<- He]].
+  destruct (Hin _ He) as [Hp Hr]. cbn [fst snd emap] in *. split; apply in_map; assumption.
+Qed.
+
+Lemma connectedb_emap es : edges_in (seq 0 K) es ->
+  connectedb (map f (seq 0 K)) (map (emap f) es) = connectedb (seq 0 K) es.
+Proof.
+  intros Hin.
+  pose proof (connectedb_spec _ _ (edges_in_emap es Hin)) as H1.
+  pose proof (connectedb_spec _ _ Hin) as H2.
+  pose proof (Connected_emap es Hin) as H3.
+  destruct (connectedb (map f (seq 0 K)) (map (emap f) es)), (connectedb (seq 0 K) es); try reflexivity.
+  - assert (false = true) by (apply H2, H3, H1; reflexivity). discriminate.
+  - assert (false = true) by (apply H1, H3, H2; reflexivity). discriminate.
+Qed.
+
+(* the number of connected e-edge subgraphs of the relabelled complete graph is brute K e *)
+Lemma brute_relabel e :
+  Z.of_nat (length (filter (fun T => connectedb (map f (seq 0 K)) T)
+                           (combs e (map (emap f) (all_edges K))))) = brute K e.
+Proof.
+  unfold brute. f_equal. rewrite combs_map.
+  assert (Hfm : forall {A B} (p : B -> bool) (g : A -> B) L,
+            length (filter p (map g L)) = length (filter (fun a => p (g a)) L)).
+  { intros A B p g L. induction L as [|a L IHL]; cbn; [reflexivity|]. destruct (p (g a)); cbn; rewrite IHL; reflexivity. }
+  rewrite Hfm. f_equal. apply filter_ext_in. intros T HT. apply combs_spec in HT.
+  apply connectedb_emap. eapply edges_in_incl; [apply subl_incl, (proj1 HT) | apply all_edges_in].
+Qed.
+
+End Relabel.
+
+(* ================================================================== B. when is C the root's component? *)
+Lemma filter_eq_subl (p : nat -> bool) l C : NoDup l -> subl C l ->
+  (filter p l = C <-> forall v, In v l -> (p v = true <-> In v C)).
+Proof.
+  intros Hnd Hs. split.
+  - intros <- v Hv. rewrite filter_In. tauto.
+  - intros H. transitivity (filter (fun v => nmem v C) l); [|apply subl_filter_mem; assumption].
+    apply filter_ext_in. intros v Hv.
+    specialize (H v Hv). destruct (p v), (nmem v C) eqn:E; try reflexivity.
+    + assert (In v C) by (apply H; reflexivity). apply nmem_In in H0. congruence.
+    + apply nmem_In in E. apply H in E. discriminate.
+Qed.
+
+Section Comp.
+Variable tau : nat.
+Hypothesis Htau : (1 <= tau)%nat.
+Variable C : list nat.
+Hypothesis HC : subl C (seq 1 (tau - 1)).
+
+Definition Cr : list nat := 0%nat :: C.
+Definition inC (v : nat) : bool := nmem v Cr.
+Definition ein (e : edge) : bool := inC (fst e) && inC (snd e).
+Definition ebd (e : edge) : bool := xorb (inC (fst e)) (inC (snd e)).
+
+Lemma Cr_lt v : In v Cr -> (v < tau)%nat.
+Proof.
+  intros [<-|H]; [lia|]. apply (subl_incl _ _ HC) in H. apply in_seq in H. lia.
+Qed.
+
+Lemma inC_In v : inC v = true <-> In v Cr.
+Proof. apply nmem_In. Qed.
+
+Definition comp (T : list edge) : list nat :=
+  filter (fun v => same_comp (labels (seq 0 tau) T) 0 v) (seq 1 (tau - 1)).
+
+Section OneSubset.
+Variable T : list edge.
+Hypothesis HT : edges_in (seq 0 tau) T.
+
+Let Tin := filter ein T.
+
+Lemma Tin_edges : edges_in Cr Tin.
+Proof.
+  intros e He. apply filter_In in He. destruct He as [_ He]. apply andb_true_iff in He.
+  destruct He as [H1 H2]. split; apply inC_In; assumption.
+Qed.
+
+(* C' is exactly the set of vertices reachable from the root *)
+Definition IsComp : Prop := forall v, (v < tau)%nat -> (conn T 0 v <-> In v Cr).
+
+Lemma adj_lt x y : adj T x y -> (x < tau)%nat /\ (y < tau)%nat.
+Proof.
+  intros [H|H]; apply HT in H; cbn [fst snd] in H; destruct H as [H1 H2];
+    apply in_seq in H1; apply in_seq in H2; lia.
+Qed.
+
+Lemma closed_of_IsComp : IsComp -> forall p r, In p Cr -> adj T p r -> In r Cr.
+Proof.
+  intros H p r Hp Ha. destruct (adj_lt p r Ha) as [Hpl Hrl].
+  apply (H r Hrl). eapply conn_trans; [apply (H p Hpl), Hp | apply conn_edge, Ha].
+Qed.
+
+Lemma closed_of_nobd : filter ebd T = [] -> forall p r, In p Cr -> adj T p r -> In r Cr.
+Proof.
+  intros Hb p r Hp Ha. apply inC_In. apply inC_In in Hp.
+  destruct (inC r) eqn:Er; [reflexivity|]. exfalso.
+  assert (Hin : forall e, In e T -> ebd e = false).
+  { intros e He. destruct (ebd e) eqn:E; [|reflexivity].
+    assert (In e (filter ebd T)) by (apply filter_In; auto). rewrite Hb in H. destruct H. }
+  destruct Ha as [Ha|Ha]; apply Hin in Ha; unfold ebd in Ha; cbn [fst snd] in Ha; rewrite Hp, Er in Ha; discriminate.
+Qed.
+
+Lemma conn_stays : (forall p r, In p Cr -> adj T p r -> In r Cr) ->
+  forall a b, conn T a b -> In a Cr -> In b Cr /\ conn Tin a b.
+Proof.
+  intros Hcl a b H. induction H as [a|a a' b Ha _ IH]; intros Hin.
+  - split; [exact Hin | constructor].
+  - assert (Ha' : In a' Cr) by (eapply Hcl; eauto).
+    destruct (IH Ha') as [Hb Hc]. split; [exact Hb|].
+    eapply conn_step; [|exact Hc].
+    apply inC_In in Hin. apply inC_In in Ha'.
+    destruct Ha as [Ha|Ha]; [left|right]; apply filter_In; (split; [exact Ha|]);
+      unfold ein; cbn [fst snd]; rewrite Hin, Ha'; reflexivity.
+Qed.
+
+Lemma Tin_incl : incl Tin T.
+Proof. intros e He. apply filter_In in He. tauto. Qed.
+
+Lemma IsComp_iff : IsComp <-> (filter ebd T = [] /\ Connected Cr Tin).
+Proof.
+  assert (H0 : In 0%nat Cr) by (left; reflexivity).
+  split.
+  - intros H. pose proof (closed_of_IsComp H) as Hcl. split.
+    + destruct (filter ebd T) as [|e l] eqn:E; [reflexivity|]. exfalso.
+      assert (He : In e (filter ebd T)) by (rewrite E; left; reflexivity).
+      apply filter_In in He. destruct He as [He Hb]. destruct e as [p r]. unfold ebd in Hb. cbn [fst snd] in Hb.
+      destruct (inC p) eqn:Ep, (inC r) eqn:Er; try discriminate.
+      * apply inC_In in Ep. assert (In r Cr) by (apply (Hcl p r Ep); left; exact He).
+        apply inC_In in H1. congruence.
+      * apply inC_In in Er. assert (In p Cr) by (apply (Hcl r p Er); right; exact He).
+        apply inC_In in H1. congruence.
+    + split; [discriminate|]. intros x y Hx Hy.
+      assert (Hx0 : conn Tin 0 x).
+      { apply (conn_stays Hcl 0%nat x); [apply (H x (Cr_lt x Hx)), Hx | exact H0]. }
+      assert (Hy0 : conn Tin 0 y).
+      { apply (conn_stays Hcl 0%nat y); [apply (H y (Cr_lt y Hy)), Hy | exact H0]. }
+      eapply conn_trans; [apply conn_sym, Hx0 | exact Hy0].
+  - intros [Hb [_ Hc]] v Hv. pose proof (closed_of_nobd Hb) as Hcl. split.
+    + intros H. apply (conn_stays Hcl 0%nat v H H0).
+    + intros H. eapply conn_incl; [apply Tin_incl | apply Hc; assumption].
+Qed.
+
+(* the boolean the regrouping needs *)
+Lemma comp_indicator : leqb C (comp T) = nilb (filter ebd T) && connectedb Cr Tin.
+Proof.
+  assert (Hnd : NoDup (seq 1 (tau - 1))) by apply seq_NoDup.
+  assert (E1 : comp T = C <-> IsComp).
+  { unfold comp. rewrite (filter_eq_subl _ _ C Hnd HC). unfold IsComp. split.
+    - intros H v Hv. destruct v as [|v].
+      + split; [intros _; left; reflexivity | intros _; constructor].
+      + assert (Hin : In (S v) (seq 1 (tau - 1))) by (apply in_seq; lia).
+        rewrite <- (same_comp_spec (seq 0 tau) T 0 (S v) HT) by (apply in_seq; lia).
+        rewrite (H (S v) Hin). split; [intros Hc; right; exact Hc | intros [Hc|Hc]; [discriminate | exact Hc]].
+    - intros H v Hv. apply in_seq in Hv.
+      rewrite (same_comp_spec (seq 0 tau) T 0 v HT) by (apply in_seq; lia).
+      rewrite (H v ltac:(lia)). split; [intros [Hc|Hc]; [lia | exact Hc] | intros Hc; right; exact Hc]. }
+  pose proof IsComp_iff as E2.
+  pose proof (connectedb_spec Cr Tin Tin_edges) as E3.
+  destruct (leqb C (comp T)) eqn:EL.
+  - apply leqb_eq in EL. symmetry in EL. apply E1, E2 in EL. destruct EL as [Hb Hc].
+    rewrite Hb. apply E3 in Hc. rewrite Hc. reflexivity.
+  - destruct (nilb (filter ebd T)) eqn:En; [|reflexivity]. cbn [andb].
+    destruct (connectedb Cr Tin) eqn:Ec; [|reflexivity]. exfalso.
+    assert (Hcomp : comp T = C).
+    { apply E1, E2. split; [destruct (filter ebd T); [reflexivity | discriminate] | apply E3; reflexivity]. }
+    assert (leqb C (comp T) = true) by (apply leqb_eq; symmetry; exact Hcomp). congruence.
+Qed.
+
+End OneSubset.
+End Comp.
